@@ -29,6 +29,9 @@ GA_SIGS = [
     ([((0, 0), 1), ((1, 0), 1)], [((1, 0), 1)]),
     ([((0, 1), 1), ((1, 1), 1)], [((0, 1), 1), ((1, 1), 1)]),
     ([((1, 0), 1)], [((0, 0), 1), ((2, 0), 1)]),
+    # inner models that emit their blocks in NON-sorted type order (the averaging sum and the final division must keep pairing by type)
+    ([((1, 0), 1), ((0, 0), 1)], [((1, 0), 1), ((0, 0), 2)]),
+    ([((1, 1), 1)], [((1, 1), 1), ((0, 1), 1), ((0, 0), 1)]),
 ]
 
 
